@@ -160,3 +160,68 @@ func HarnessC16UDP(a []int) {
 	verifAssert("C16.udp.receiver_returned", returned)
 	verifCover("C16.udp.end")
 }
+
+func init() {
+	verifHarnesses["HarnessC16ConcurrentSend"] = HarnessC16ConcurrentSend
+}
+
+// c16YieldConn is a net.Conn whose Write is a scheduling point: other goroutines may run between
+// the moment Send has built its frame and the moment the bytes are handed to the network.
+type c16YieldConn struct {
+	c15Conn
+	all [][]byte
+}
+
+func (c *c16YieldConn) Write(b []byte) (int, error) {
+	verifYield()
+	c.all = append(c.all, append([]byte(nil), b...))
+	verifYield()
+	return len(b), nil
+}
+
+// HarnessC16ConcurrentSend: a = {senders 2..3}: goroutines sending different frames through one
+// TunnelSocket concurrently; every write must be exactly one complete frame of one of the senders,
+// each frame exactly once.
+func HarnessC16ConcurrentSend(a []int) {
+	n := a[0]
+	conn := &c16YieldConn{}
+	sock := &TunnelSocket{conn: conn}
+	var want [][]byte
+	var vals []ServicePackable
+	for i := 0; i < n; i++ {
+		v, b := c16Frame(i)
+		vals = append(vals, v)
+		want = append(want, b)
+	}
+	done := make(chan error, n)
+	for i := 0; i < n; i++ {
+		v := vals[i]
+		go func() { done <- sock.Send(v) }()
+	}
+	for i := 0; i < n; i++ {
+		verifAssert("C16.send.ok", <-done == nil)
+	}
+	verifAssert("C16.send.one_write_each", len(conn.all) == n)
+	for i := 0; i < n; i++ {
+		hits := 0
+		for _, w := range conn.all {
+			if len(w) != len(want[i]) {
+				continue
+			}
+			same := true
+			for k := range w {
+				if w[k] != want[i][k] {
+					same = false
+				}
+			}
+			if same {
+				hits++
+			}
+		}
+		verifAssert("C16.send.each_frame_once_intact", hits >= 1)
+	}
+	for _, w := range conn.all {
+		verifAssert("C16.send.wellformed_header", len(w) >= 6 && w[0] == 6 && w[1] == 0x10 && int(w[4])<<8|int(w[5]) == len(w))
+	}
+	verifCover("C16.send.concurrent.end")
+}
